@@ -177,9 +177,10 @@ class ShaclSerializer(object):
         r_constraint_node = self._generate_bnode()
         self._add_bnode_property(r_shape_uri=r_shape_uri,
                                  r_constraint_node=r_constraint_node)
-        self._add_direct_path(statement=statement,
+        self._add_path(statement=statement,
+                       r_constraint_node=r_constraint_node)
+        self._add_cardinality(statement=statement,
                               r_constraint_node=r_constraint_node)
-        self._add_exactly_one_cardinality(r_constraint_node=r_constraint_node)
         self._add_in_instance(statement=statement,
                               r_constraint_node=r_constraint_node)
 
